@@ -508,3 +508,101 @@ impl SimTy for Bounded {
         AV::record(vec![(own_hash("v"), self.v.get().av(c))])
     }
 }
+
+// ---------------------------------------------------------------- upgrade families (wire-sim, C04)
+
+sim_struct!(RecV1 { a: Nat, b: String });
+sim_struct!(RecV2 { a: Int, b: String, c: Option<u8> });
+sim_struct!(RecV3 { a: Int, c: Option<Vec<u8>>, d: Option<RecV1> });
+sim_struct!(RecV4 { a: candid::Reserved, b: Option<String>, e: Vec<Option<Int>> });
+
+#[derive(CandidType, Deserialize, Clone, Debug)]
+pub enum VarV1 {
+    A,
+    B(Nat),
+}
+#[derive(CandidType, Deserialize, Clone, Debug)]
+pub enum VarV2 {
+    A,
+    B(Int),
+    C(String),
+}
+impl SimTy for VarV1 {
+    fn name() -> String {
+        "VarV1".into()
+    }
+    fn sim_type(env: &mut SEnv) -> SType {
+        let l = |s: &str| SLabel::Named(s.to_string());
+        SType::variant(vec![(l("A"), SType::Prim(Prim::Null)), (l("B"), Nat::sim_type(env))])
+    }
+    fn gen(rng: &mut Rng, s: usize) -> Self {
+        if rng.chance(1, 2) {
+            VarV1::A
+        } else {
+            VarV1::B(Nat::gen(rng, s))
+        }
+    }
+    fn av(&self, c: bool) -> AV {
+        match self {
+            VarV1::A => AV::Variant(own_hash("A"), Box::new(AV::Null)),
+            VarV1::B(n) => AV::Variant(own_hash("B"), Box::new(n.av(c))),
+        }
+    }
+}
+impl SimTy for VarV2 {
+    fn name() -> String {
+        "VarV2".into()
+    }
+    fn sim_type(env: &mut SEnv) -> SType {
+        let l = |s: &str| SLabel::Named(s.to_string());
+        SType::variant(vec![(l("A"), SType::Prim(Prim::Null)), (l("B"), Int::sim_type(env)), (l("C"), String::sim_type(env))])
+    }
+    fn gen(rng: &mut Rng, s: usize) -> Self {
+        match rng.below(3) {
+            0 => VarV2::A,
+            1 => VarV2::B(Int::gen(rng, s)),
+            _ => VarV2::C(String::gen(rng, s)),
+        }
+    }
+    fn av(&self, c: bool) -> AV {
+        match self {
+            VarV2::A => AV::Variant(own_hash("A"), Box::new(AV::Null)),
+            VarV2::B(n) => AV::Variant(own_hash("B"), Box::new(n.av(c))),
+            VarV2::C(n) => AV::Variant(own_hash("C"), Box::new(n.av(c))),
+        }
+    }
+}
+define_function!(pub FuncRefV2 : (u8, String, Option<Nat>) -> (Nat, Int) query);
+define_service!(pub ServRefV2 : { "get": candid::func!(() -> (Nat) query); "put": candid::func!((Nat) -> ()); "extra": candid::func!(() -> ()) });
+impl SimTy for FuncRefV2 {
+    fn name() -> String {
+        "FuncRefV2".into()
+    }
+    fn sim_type(_: &mut SEnv) -> SType {
+        SType::Func { args: vec![SType::Prim(Prim::Nat8), SType::Prim(Prim::Text), SType::opt(SType::Prim(Prim::Nat))], rets: vec![SType::Prim(Prim::Nat), SType::Prim(Prim::Int)], mode: Mode::Query }
+    }
+    fn gen(rng: &mut Rng, _: usize) -> Self {
+        FuncRefV2(Func { principal: Principal::from_slice(&gen_principal(rng)), method: String::gen(rng, 0) })
+    }
+    fn av(&self, _: bool) -> AV {
+        AV::Func(self.0.principal.as_slice().to_vec(), self.0.method.clone())
+    }
+}
+impl SimTy for ServRefV2 {
+    fn name() -> String {
+        "ServRefV2".into()
+    }
+    fn sim_type(_: &mut SEnv) -> SType {
+        SType::service(vec![
+            ("get".into(), SType::Func { args: vec![], rets: vec![SType::Prim(Prim::Nat)], mode: Mode::Query }),
+            ("put".into(), SType::Func { args: vec![SType::Prim(Prim::Nat)], rets: vec![], mode: Mode::Update }),
+            ("extra".into(), SType::Func { args: vec![], rets: vec![], mode: Mode::Update }),
+        ])
+    }
+    fn gen(rng: &mut Rng, _: usize) -> Self {
+        ServRefV2(Service { principal: Principal::from_slice(&gen_principal(rng)) })
+    }
+    fn av(&self, _: bool) -> AV {
+        AV::Service(self.0.principal.as_slice().to_vec())
+    }
+}
